@@ -249,18 +249,47 @@ Proof.
       rewrite K in L. inversion L; subst. left. apply ids_aset_new.
 Qed.
 
-Lemma ok_service_cxes : forall snap hs s,
+Lemma ok_handshake_failed drop prop s ca cx :
+  lookup ca (cxes s) = Some cx -> table_ok s -> table_ok (handshake_failed drop prop s ca cx).
+Proof.
+  intros L [H1 H2 H3 H4]. constructor; cbn [handshake_failed ixes cxes next sk detached].
+  - exact H1.
+  - destruct drop; [apply nodup_aremove|]; exact H2.
+  - intros i Hi. apply H3. apply in_referenced. apply in_referenced in Hi. cbn in Hi.
+    destruct Hi as [Hi|[Hi|Hi]]; [auto| |auto]. destruct drop; [|auto].
+    right. left. eapply ids_aremove_in. exact Hi.
+  - intros i Hi Ho. apply upd_open_inv in Ho; [|intro; discriminate]. destruct Ho as [Hne Ho].
+    assert (Hr : In i (referenced s)) by (apply H4; assumption).
+    apply in_referenced. cbn. apply in_referenced in Hr. destruct Hr as [Hr|[Hr|Hr]]; [auto| |auto].
+    destruct drop; [|auto]. destruct (ids_aremove_keep ca _ _ Hr) as [K|K]; [auto|].
+    rewrite K in L. inversion L. contradiction.
+Qed.
+
+Lemma ok_wedge s : table_ok s -> table_ok (wedge s).
+Proof. intros [H1 H2 H3 H4]. constructor; cbn; assumption. Qed.
+
+Lemma ok_service_cxes cleans : forall snap hs s,
   NoDup (keys snap) -> (forall ca cx, In (ca, cx) snap -> lookup ca (cxes s) = Some cx) ->
-  table_ok s -> table_ok (service_cxes snap hs s).
+  table_ok s -> table_ok (service_cxes cleans snap hs s).
 Proof.
   induction snap as [|[ca cx] snap IH]; intros hs s Hd Hl Hs; cbn [service_cxes]; [exact Hs|].
   inversion Hd as [|? ? Hn Hd']; subst.
-  destruct hs as [|[|] hs]; [exact Hs| |].
-  - apply IH; [exact Hd'| |apply ok_promote; [apply Hl; left; reflexivity|exact Hs]].
-    intros ca' cx' Hin. cbn [promote cxes]. rewrite lookup_aremove_other.
-    + apply Hl. right. exact Hin.
-    + intro; subst. apply Hn. change ca with (fst (ca, cx')). apply in_map. exact Hin.
-  - apply IH; [exact Hd'| |exact Hs]. intros ca' cx' Hin. apply Hl. right. exact Hin.
+  assert (Hrest : forall ca' cx', In (ca', cx') snap -> lookup ca' (cxes s) = Some cx')
+    by (intros; apply Hl; right; assumption).
+  assert (Hne : forall ca' cx', In (ca', cx') snap -> ca' <> ca).
+  { intros ca' cx' Hin E. subst. apply Hn. change ca with (fst (ca, cx')). apply in_map. exact Hin. }
+  assert (Hprom : forall hs', table_ok (service_cxes cleans snap hs' (promote s ca cx))).
+  { intro hs'. apply IH; [exact Hd'| |apply ok_promote; [apply Hl; left; reflexivity|exact Hs]].
+    intros ca' cx' Hin. cbn [promote cxes]. rewrite lookup_aremove_other; [apply Hrest; exact Hin|eapply Hne; exact Hin]. }
+  assert (Hfail : forall d p, table_ok (handshake_failed d p s ca cx))
+    by (intros; apply ok_handshake_failed; [apply Hl; left; reflexivity|exact Hs]).
+  assert (Hcont : forall hs', table_ok (service_cxes cleans snap hs' (handshake_failed true false s ca cx))).
+  { intro hs'. apply IH; [exact Hd'| |apply Hfail].
+    intros ca' cx' Hin. cbn [handshake_failed cxes]. rewrite lookup_aremove_other; [apply Hrest; exact Hin|eapply Hne; exact Hin]. }
+  destruct (sk s cx); [| |apply ok_wedge; exact Hs];
+    (destruct hs as [|[| |] hs];
+     [apply IH; assumption | apply Hprom | apply IH; assumption
+     | destruct cleans; [apply Hfail|apply Hfail|apply Hcont]]).
 Qed.
 
 Lemma ok_fold_accept (f : srv -> Z -> srv) :
@@ -278,7 +307,7 @@ Qed.
 Lemma ok_err s : table_ok s -> table_ok (err s).
 Proof. intros [H1 H2 H3 H4]. constructor; cbn; assumption. Qed.
 
-Lemma ok_step tls s o : table_ok s -> table_ok (step tls s o).
+Lemma ok_step tls cleans s o : table_ok s -> table_ok (step tls cleans s o).
 Proof.
   intro Hs. destruct o as [cas hs|ca|ca| |ca sc]; cbn [step].
   - destruct tls.
@@ -310,17 +339,17 @@ Proof.
       right. right. left. reflexivity.
 Qed.
 
-Lemma ok_run tls ops : table_ok (run tls ops).
+Lemma ok_run tls cleans ops : table_ok (run tls cleans ops).
 Proof.
-  unfold run. assert (G : forall ops s, table_ok s -> table_ok (fold_left (step tls) ops s)).
+  unfold run. assert (G : forall ops s, table_ok s -> table_ok (fold_left (step tls cleans) ops s)).
   { induction ops0 as [|o ops0 IH]; intros s Hs; [exact Hs|]. cbn. apply IH. apply ok_step. exact Hs. }
   apply G. apply ok_init.
 Qed.
 
 (* ------------------------------------------------------------------ re-accept and remove *)
-Lemma reaccept_plain s ca old hs :
+Lemma reaccept_plain cleans s ca old hs :
   table_ok s -> lookup ca (ixes s) = Some old ->
-  let s' := step false s (ServiceConnects [ca] hs) in
+  let s' := step false cleans s (ServiceConnects [ca] hs) in
   errors s' = errors s /\ lookup ca (ixes s') = Some (next s) /\ keys (ixes s') = keys (ixes s) /\
   sk s' old <> Open /\ sk s' (next s) = Open /\
   (forall ca2, ca2 <> ca -> lookup ca2 (ixes s') = lookup ca2 (ixes s)).
@@ -337,29 +366,37 @@ Proof.
   - intros ca2 Hn. apply lookup_aset_other. exact Hn.
 Qed.
 
-Lemma reaccept_tls s ca old :
+Lemma reaccept_tls cleans s ca old :
   table_ok s -> lookup ca (ixes s) = Some old -> cxes s = [] ->
-  let s' := step true s (ServiceConnects [ca] [true]) in
+  let s' := step true cleans s (ServiceConnects [ca] [HDone]) in
   errors s' = errors s /\ lookup ca (ixes s') = Some (next s) /\ keys (ixes s') = keys (ixes s) /\
   cxes s' = [] /\ sk s' old <> Open /\ sk s' (next s) = Open.
 Proof.
-  intros Hs L C. cbn [step fold_left accept_tls cxes]. rewrite C. cbn [lookup aset service_cxes].
-  cbn [promote errors ixes cxes sk next accept_tls shut_opt]. rewrite L.
+  intros Hs L C.
   assert (Hb : old < next s).
   { apply (ok_ids_bounded _ Hs). apply in_referenced. left. eapply lookup_in_ids. exact L. }
-  destruct (Nat.eqb old (next s)) eqn:E; [apply Nat.eqb_eq in E; lia|].
+  assert (E : Nat.eqb old (next s) = false) by (apply Nat.eqb_neq; lia).
+  assert (E2 : Nat.eqb (next s) old = false) by (apply Nat.eqb_neq; lia).
+  set (s1 := accept_tls s ca).
+  assert (C1 : cxes s1 = [(ca, next s)]) by (unfold s1; cbn [accept_tls cxes]; rewrite C; reflexivity).
+  assert (O1 : sk s1 (next s) = Open).
+  { unfold s1. cbn [accept_tls sk]. unfold upd. rewrite Nat.eqb_refl. reflexivity. }
+  assert (St : step true cleans s (ServiceConnects [ca] [HDone]) = promote s1 ca (next s)).
+  { cbn [step fold_left]. fold s1. rewrite C1. cbn [service_cxes]. rewrite O1. reflexivity. }
+  cbv zeta. rewrite St.
+  assert (L1 : lookup ca (ixes s1) = Some old) by (unfold s1; cbn [accept_tls ixes]; exact L).
+  cbn [promote errors ixes cxes sk]. rewrite L1, E, C1.
   repeat split.
   - apply lookup_aset_same.
-  - eapply keys_aset_present. exact L.
-  - rewrite C. cbn. rewrite Z.eqb_refl. reflexivity.
-  - rewrite C. cbn. unfold upd. rewrite Nat.eqb_refl. apply shut1_not_open.
-  - rewrite C. cbn. unfold upd. apply Nat.eqb_neq in E.
-    destruct (Nat.eqb (next s) old) eqn:E2; [apply Nat.eqb_eq in E2; lia|]. rewrite Nat.eqb_refl. reflexivity.
+  - unfold s1. cbn [accept_tls ixes]. eapply keys_aset_present. exact L.
+  - cbn. rewrite Z.eqb_refl. reflexivity.
+  - cbn [shut_opt]. unfold upd at 1. rewrite Nat.eqb_refl. apply shut1_not_open.
+  - cbn [shut_opt]. unfold upd at 1. rewrite E2. exact O1.
 Qed.
 
-Lemma remove_closes tls s ca i :
+Lemma remove_closes tls cleans s ca i :
   table_ok s -> lookup ca (ixes s) = Some i ->
-  let s' := step tls s (RemoveIx ca true) in
+  let s' := step tls cleans s (RemoveIx ca true) in
   errors s' = errors s /\ lookup ca (ixes s') = None /\ sk s' i = Closed /\
   (forall ca2, ca2 <> ca -> lookup ca2 (ixes s') = lookup ca2 (ixes s)).
 Proof.
@@ -369,10 +406,10 @@ Proof.
   - intros ca2 Hn. apply lookup_aremove_other. exact Hn.
 Qed.
 
-Lemma unknown_address_rejected tls s ca :
+Lemma unknown_address_rejected tls cleans s ca :
   lookup ca (ixes s) = None ->
-  step tls s (RemoveIx ca true) = err s /\ step tls s (CloseIx ca) = err s /\
-  step tls s (ShutdownIx ca) = err s.
+  step tls cleans s (RemoveIx ca true) = err s /\ step tls cleans s (CloseIx ca) = err s /\
+  step tls cleans s (ShutdownIx ca) = err s.
 Proof. intro L. cbn [step]. rewrite L. auto. Qed.
 
 (* ------------------------------------------------------------------ every accepted peer gets an entry *)
@@ -405,38 +442,65 @@ Proof.
     + cbn [accept_tls cxes]. apply has_entry_aset. right. exact H.
 Qed.
 
-(* serviceCxes only moves entries from the pending to the ready table *)
-Lemma service_cxes_keeps_entries : forall snap hs s ca,
-  has_entry ca (ixes s) \/ has_entry ca (cxes s) ->
-  (forall k v, In (k, v) snap -> lookup k (cxes s) = Some v) -> NoDup (keys snap) ->
-  has_entry ca (ixes (service_cxes snap hs s)) \/ has_entry ca (cxes (service_cxes snap hs s)).
+Lemma hfails_mono cleans : forall snap hs s, hfails s <= hfails (service_cxes cleans snap hs s).
 Proof.
-  induction snap as [|[k v] snap IH]; intros hs s ca H Hl Hd; cbn [service_cxes]; [exact H|].
-  inversion Hd as [|? ? Hn Hd']; subst.
-  destruct hs as [|[|] hs]; [exact H| |].
-  - apply IH; [| |exact Hd'].
-    + cbn [promote ixes cxes]. destruct (Z.eq_dec ca k) as [E|E].
-      * left. apply has_entry_aset. left. exact E.
-      * destruct H as [H|H]; [left; apply has_entry_aset; right; exact H|].
-        right. unfold has_entry. rewrite lookup_aremove_other; assumption.
-    + intros k' v' Hin. cbn [promote cxes]. rewrite lookup_aremove_other.
-      * apply Hl. right. exact Hin.
-      * intro; subst. apply Hn. change k with (fst (k, v')). apply in_map. exact Hin.
-  - apply IH; [exact H| |exact Hd']. intros k' v' Hin. apply Hl. right. exact Hin.
+  induction snap as [|[k v] snap IH]; intros hs s; cbn [service_cxes]; [lia|].
+  destruct (sk s v); try (cbn; lia);
+    (destruct hs as [|[| |] hs];
+     [apply IH | exact (IH hs (promote s k v)) | apply IH
+     | destruct cleans; cbn [handshake_failed hfails]; try lia;
+       specialize (IH hs (handshake_failed true false s k v)); cbn [handshake_failed hfails] in IH; lia]).
 Qed.
 
-Lemma accepted_have_entries tls s cas hs ca :
+(* serviceCxes only moves entries from the pending to the ready table -- unless a handshake fails
+   (then that peer is no longer connected) *)
+Lemma service_cxes_keeps_entries cleans : forall snap hs s ca,
+  has_entry ca (ixes s) \/ has_entry ca (cxes s) ->
+  (forall k v, In (k, v) snap -> lookup k (cxes s) = Some v) -> NoDup (keys snap) ->
+  let s' := service_cxes cleans snap hs s in
+  has_entry ca (ixes s') \/ has_entry ca (cxes s') \/ hfails s < hfails s'.
+Proof.
+  induction snap as [|[k v] snap IH]; intros hs s ca H Hl Hd; cbn [service_cxes]; [tauto|].
+  inversion Hd as [|? ? Hn Hd']; subst.
+  assert (Hrest : forall k' v', In (k', v') snap -> lookup k' (cxes s) = Some v')
+    by (intros; apply Hl; right; assumption).
+  assert (Hne : forall k' v', In (k', v') snap -> k' <> k).
+  { intros k' v' Hin E. subst. apply Hn. change k with (fst (k, v')). apply in_map. exact Hin. }
+  assert (Hprom : forall hs', let s' := service_cxes cleans snap hs' (promote s k v) in
+            has_entry ca (ixes s') \/ has_entry ca (cxes s') \/ hfails s < hfails s').
+  { intro hs'. change (hfails s) with (hfails (promote s k v)). apply IH; [| |exact Hd'].
+    - cbn [promote ixes cxes]. destruct (Z.eq_dec ca k) as [E|E].
+      + left. apply has_entry_aset. left. exact E.
+      + destruct H as [H|H]; [left; apply has_entry_aset; right; exact H|].
+        right. unfold has_entry. rewrite lookup_aremove_other; assumption.
+    - intros k' v' Hin. cbn [promote cxes]. rewrite lookup_aremove_other; [apply Hrest; exact Hin|eapply Hne; exact Hin]. }
+  assert (Hcont : forall hs', let s' := service_cxes cleans snap hs' (handshake_failed true false s k v) in
+            has_entry ca (ixes s') \/ has_entry ca (cxes s') \/ hfails s < hfails s').
+  { intro hs'. cbv zeta. right. right.
+    pose proof (hfails_mono cleans snap hs' (handshake_failed true false s k v)) as M.
+    cbn [handshake_failed hfails] in M. lia. }
+  destruct (sk s v); [| |cbn; tauto];
+    (destruct hs as [|[| |] hs];
+     [apply IH; assumption | apply Hprom | apply IH; assumption
+     | destruct cleans; [right; right; cbn; lia|right; right; cbn; lia|apply Hcont]]).
+Qed.
+
+Lemma accepted_have_entries tls cleans s cas hs ca :
   table_ok s -> In ca cas ->
-  let s' := step tls s (ServiceConnects cas hs) in
-  has_entry ca (ixes s') \/ (tls = true /\ has_entry ca (cxes s')).
+  let s' := step tls cleans s (ServiceConnects cas hs) in
+  has_entry ca (ixes s') \/ (tls = true /\ (has_entry ca (cxes s') \/ hfails s < hfails s')).
 Proof.
   intros Hs Hin. cbn [step]. destruct tls.
   - assert (H1 : table_ok (fold_left accept_tls cas s)) by (apply ok_fold_accept; [apply ok_accept_tls|exact Hs]).
-    destruct (service_cxes_keeps_entries (cxes (fold_left accept_tls cas s)) hs (fold_left accept_tls cas s) ca) as [H|H].
+    assert (Hf : hfails (fold_left accept_tls cas s) = hfails s).
+    { clear. revert s. induction cas as [|c cas IH]; intro s; [reflexivity|]. cbn [fold_left]. rewrite IH. reflexivity. }
+    rewrite <- Hf.
+    destruct (service_cxes_keeps_entries cleans (cxes (fold_left accept_tls cas s)) hs (fold_left accept_tls cas s) ca) as [H|[H|H]].
     + right. apply fold_accept_tls_entries. left. exact Hin.
     + intros k v Hi. apply lookup_of_in; [apply (ok_cxes_functional _ H1)|exact Hi].
     + apply (ok_cxes_functional _ H1).
     + left. exact H.
-    + right. split; [reflexivity|exact H].
+    + right. split; [reflexivity|left; exact H].
+    + right. split; [reflexivity|right; exact H].
   - left. apply fold_accept_plain_entries. left. exact Hin.
 Qed.
